@@ -283,14 +283,14 @@ static void script(int nfiles, const int *fds)
 		}
 	}
 	{
-		/* a history on the open dump: the application overrides the page size (doubled, x16, halved, back to what
-		 * the dump announced) and reads again; per-context buffers that depend on the page size must follow */
-		static const struct { unsigned mul, div; } chg[] = { { 2, 1 }, { 16, 1 }, { 1, 2 }, { 1, 1 } };
+		/* a history on the open dump: the application overrides the page size (x16, halved, back to what the
+		 * dump announced) and reads again; per-context buffers that depend on the page size must follow */
+		static const struct { unsigned mul, div; } chg[] = { { 16, 1 }, { 1, 2 }, { 1, 1 } };
 		unsigned k, j;
 		/* (a small page cache first: the cache is re-allocated with every change of the page size) */
 		OP("set cache.size 8");
 		ST(kdump_set_number_attr(ctx, "cache.size", 8));
-		for (k = 0; k < 4; ++k) {
+		for (k = 0; k < 3; ++k) {
 			uint64_t nps = ps * chg[k].mul / chg[k].div;
 			if (nps < 8 || nps > (1u << 20)) continue;
 			OP("set arch.page_size %" PRIu64, nps);
